@@ -69,7 +69,8 @@ def run(ctx):
                 ok = False
                 break
             single = r[1]
-            fc.oracle_ema(ctx, case.mb, q, sig, samples, single, fail) if len(case.data) == 1 else None
+            # several signatures: alias signatures continue one moving average, so only the PRESENCE of every entry is checked there
+            fc.oracle_ema(ctx, case.mb, q, sig, samples, single, fail, values=(len(case.data) == 1))
         if not ok:
             continue
         # every split into resumed sessions gives exactly the same result
